@@ -170,6 +170,34 @@ pub use wal::{
     SyncMode, TensorWal, WalConfig, WalEntry, WalError, WalRecovery, WalResult, WalStatus,
 };
 
+/// Verification hook (compiled only with `--cfg neumann_verif`): a per-thread callback invoked at
+/// the boundaries of store operations, used by /verif's deterministic scheduler to control the
+/// interleaving of real threads. A no-op unless a callback is registered on the calling thread.
+#[cfg(neumann_verif)]
+pub mod verif {
+    use std::cell::RefCell;
+
+    type Hook = Box<dyn Fn(&'static str, &str)>;
+
+    thread_local! {
+        static HOOK: RefCell<Option<Hook>> = const { RefCell::new(None) };
+    }
+
+    /// Install (or clear) the calling thread's yield callback.
+    pub fn set_yield_hook(hook: Option<Hook>) {
+        HOOK.with(|h| *h.borrow_mut() = hook);
+    }
+
+    /// Called by the store at operation / sub-step boundaries.
+    pub fn yield_point(site: &'static str, key: &str) {
+        HOOK.with(|h| {
+            if let Some(f) = h.borrow().as_ref() {
+                f(site, key);
+            }
+        });
+    }
+}
+
 /// Reserved field prefixes for unified entity storage.
 ///
 /// These prefixes are used by the different engines to store their data
@@ -926,6 +954,8 @@ impl TensorStore {
     /// Returns an error if the underlying storage operation fails.
     pub fn put(&self, key: impl Into<String>, tensor: TensorData) -> Result<()> {
         let key = key.into();
+        #[cfg(neumann_verif)]
+        verif::yield_point("store.put", &key);
         if let Some(ref filter) = self.bloom_filter {
             filter.add(&key);
         }
@@ -946,6 +976,8 @@ impl TensorStore {
     ///
     /// Returns `TensorStoreError::NotFound` if the key does not exist.
     pub fn get(&self, key: &str) -> Result<TensorData> {
+        #[cfg(neumann_verif)]
+        verif::yield_point("store.get", key);
         // Fast path: check Bloom filter first
         if let Some(ref filter) = self.bloom_filter {
             if !filter.might_contain(&key) {
@@ -966,6 +998,8 @@ impl TensorStore {
     ///
     /// Returns `TensorStoreError::NotFound` if the key does not exist.
     pub fn delete(&self, key: &str) -> Result<()> {
+        #[cfg(neumann_verif)]
+        verif::yield_point("store.delete", key);
         if let Some(ref instr) = self.instrumentation {
             instr.record_write(Self::shard_for_key(key));
         }
@@ -980,6 +1014,8 @@ impl TensorStore {
     /// `false` immediately if the key is definitely not present.
     #[must_use]
     pub fn exists(&self, key: &str) -> bool {
+        #[cfg(neumann_verif)]
+        verif::yield_point("store.exists", key);
         // Fast path: check Bloom filter first
         if let Some(ref filter) = self.bloom_filter {
             if !filter.might_contain(&key) {
@@ -995,6 +1031,8 @@ impl TensorStore {
     /// Scans keys with the given prefix.
     #[must_use]
     pub fn scan(&self, prefix: &str) -> Vec<String> {
+        #[cfg(neumann_verif)]
+        verif::yield_point("store.scan", prefix);
         self.router.scan(prefix)
     }
 
@@ -1444,6 +1482,8 @@ impl TensorStore {
     /// non-durable `put`.
     pub fn put_durable(&self, key: impl Into<String>, tensor: TensorData) -> Result<()> {
         let key = key.into();
+        #[cfg(neumann_verif)]
+        verif::yield_point("store.put_durable", &key);
         if let Some(ref filter) = self.bloom_filter {
             filter.add(&key);
         }
@@ -1463,6 +1503,8 @@ impl TensorStore {
     ///
     /// Returns an error if the key does not exist or WAL append fails.
     pub fn delete_durable(&self, key: &str) -> Result<()> {
+        #[cfg(neumann_verif)]
+        verif::yield_point("store.delete_durable", key);
         if let Some(ref instr) = self.instrumentation {
             instr.record_write(Self::shard_for_key(key));
         }
